@@ -209,12 +209,12 @@ func c59Parse(b []byte) ([]c59Frame, error) {
 // ---- case ----
 
 const (
-	c59Text     = iota // Message.Send(string)
-	c59Binary          // Message.Send([]byte)
-	c59RawText         // Conn.PayloadType = TextFrame; Conn.Write
-	c59RawBin          // Conn.PayloadType = BinaryFrame; Conn.Write
-	c59JSON            // JSON.Send(string)
-	c59Ping            // PING control frame put on the wire by the harness
+	c59Text    = iota // Message.Send(string)
+	c59Binary         // Message.Send([]byte)
+	c59RawText        // Conn.PayloadType = TextFrame; Conn.Write
+	c59RawBin         // Conn.PayloadType = BinaryFrame; Conn.Write
+	c59JSON           // JSON.Send(string)
+	c59Ping           // PING control frame put on the wire by the harness
 	c59NumKinds
 )
 
